@@ -491,6 +491,11 @@ func init() {
 				paths = append(paths, p.s)
 				class = p.class
 				viaStdin = true
+				// paths without characters that mean something between double quotes also as literals in the source
+				if (p.class == "path-blank" || p.class == "path-subdir" || p.class == "path-dash" || p.class == "path-blank-edge") && r.Intn(2) == 0 {
+					viaStdin = false
+					class += "-literal"
+				}
 			}
 			contents := []string{"alpha", "beta gamma", "x"}
 			if special == 2 {
